@@ -1044,10 +1044,25 @@ fn gen_header(rng: &mut Rng, p: &P, prog: &[u8]) -> GenHdr {
         let mut formats: Vec<u64> = Vec::new();
         let mut rows: Vec<Vec<FV>> = (0..count).map(|_| Vec::new()).collect();
         for ct in &cts {
-            let proto = if *ct == 5 && rng.chance(3, 4) { FV::Data16(vec![0; 16]) } else { random_fv(rng, p.fmt64, *ct == 1) };
+            let md5_block = *ct == 5 && rng.chance(1, 3);
+            let proto = if md5_block {
+                // MD5 written as a block: only exactly 16 bytes count
+                FV::Block(*rng.pick(&[0x0au64, 0x03, 0x04, 0x09]), vec![])
+            } else if *ct == 5 && rng.chance(3, 4) {
+                FV::Data16(vec![0; 16])
+            } else {
+                random_fv(rng, p.fmt64, *ct == 1)
+            };
             formats.push(proto.form());
             for r in rows.iter_mut() {
-                let mut v = if matches!(proto, FV::Data16(_)) { FV::Data16(rng.bytes(16)) } else { random_fv(rng, p.fmt64, *ct == 1) };
+                let mut v = if md5_block {
+                    let n = *rng.pick(&[0usize, 15, 16, 16, 17, 32]);
+                    FV::Block(proto.form(), rng.bytes(n))
+                } else if matches!(proto, FV::Data16(_)) {
+                    FV::Data16(rng.bytes(16))
+                } else {
+                    random_fv(rng, p.fmt64, *ct == 1)
+                };
                 let mut guard = 0;
                 while v.form() != proto.form() && guard < 200 {
                     v = random_fv(rng, p.fmt64, *ct == 1);
@@ -1261,6 +1276,30 @@ pub fn handle(op: &str, a: &[&str]) -> Option<String> {
                 Err(e) => with_oracle(format!("err {}", rerr(&e)), Some("hdr-rejected".into())),
             })
         }
+        ("line-dump", [e, asz, off, sec, expect]) => {
+            let endian = match *e {
+                "le" => RunTimeEndian::Little,
+                "be" => RunTimeEndian::Big,
+                _ => return None,
+            };
+            let asz: u8 = asz.parse().ok()?;
+            let off: usize = off.parse().ok()?;
+            let sec = unhex(sec)?;
+            let dl = DebugLine::new(&sec, endian);
+            let program = match dl.program(DebugLineOffset(off), asz, None, None) {
+                Ok(x) => x,
+                Err(e) => return Some(with_oracle(format!("err {}", rerr(&e)), Some("dwarfdump-rejected".into()))),
+            };
+            let mut rows = program.rows();
+            let evs = collect_rows!(rows, sec.len() + 2);
+            let txt = list_s(&evs, |e| match e {
+                Ev::Row(r) => format!("{},{},{},{},{},{},{}", r.address, r.line, r.column, r.file, r.isa, r.disc, r.flags),
+                Ev::Err(e) => format!("err:{e}"),
+                Ev::Steps => "steps".into(),
+            });
+            let o = if txt != *expect { Some(format!("dwarfdump-rows expected {expect}")) } else { None };
+            Some(with_oracle(format!("ok {txt}"), o))
+        }
         ("line-prog", [e, asz, sec]) => {
             let endian = match *e {
                 "le" => RunTimeEndian::Little,
@@ -1363,6 +1402,13 @@ fn gen_abs(rng: &mut Rng, p: &P, tame: bool) -> Vec<I> {
         addr = if tame { rng.below(mask / 2 + 1) } else { rng.boundary_u64() & mask };
         is.push(I::SetAddress(addr));
     }
+    if !tame && rng.chance(1, 6) {
+        // drive the line register to the top of u64 so that the next advances wrap
+        is.push(I::AdvanceLine(i64::MAX));
+        is.push(I::AdvanceLine(i64::MAX));
+        is.push(I::AdvanceLine(rng.below(4) as i64));
+        is.push(I::Copy);
+    }
     for _ in 0..n {
         let k = rng.below(100);
         let i = match k {
@@ -1447,7 +1493,19 @@ fn gen_raw(rng: &mut Rng, p: &P) -> Vec<u8> {
                 let v = rng.boundary_u64();
                 uleb(&mut out, v);
             }
-            8 => out.extend(rng.bytes_below(4)),
+            8 => {
+                // extended opcode frames with lengths that do not match the operand: padding after
+                // the operand, operands cut short, zero length, length beyond the input
+                let sub = *rng.pick(&[1u8, 2, 2, 3, 4, 5, 0x80, 0]);
+                let len = rng.below(14);
+                out.push(0);
+                uleb(&mut out, if rng.chance(1, 12) { rng.boundary_u64() } else { len });
+                if len > 0 {
+                    out.push(sub);
+                    let body = rng.bytes(len as usize - 1);
+                    out.extend(body);
+                }
+            }
             _ => out.push(*rng.pick(&[1u8, 8, 8, 255, 254, 13, 12, 6])),
         }
     }
@@ -1482,6 +1540,122 @@ fn mutate(rng: &mut Rng, bs: &[u8]) -> Vec<u8> {
         }
     }
     b
+}
+
+const C_SOURCES: &[&str] = &[
+    "static int sq(int x) { return x * x; }\nint unused_fn(int y) { int s = 0; for (int i = 0; i < y; i++) s += sq(i); return s; }\nint main(int argc, char **argv) {\n  int t = 0;\n  for (int i = 0; i < argc; i++) { t += sq(i); if (t > 100) t -= 7; }\n  return t;\n}\n",
+    "struct P { int a; long b; };\nstatic long f(struct P *p, int n) {\n  long r = 0;\n  while (n-- > 0) {\n    switch (n & 3) {\n    case 0: r += p->a; break;\n    case 1: r -= p->b; break;\n    default: r ^= n; break;\n    }\n  }\n  return r;\n}\nlong g(int n) { struct P p = { n, 2L * n }; return f(&p, n); }\nvolatile int sink;\nint main(void) { sink = (int)g(17); return 0; }\n",
+    "#line 100 \"one.c\"\nint a(int x) { return x + 1; }\n#line 7 \"two.c\"\nint b(int x) {\n  if (x > 3)\n    return a(x) * 2;\n  return a(x);\n}\n#line 300 \"one.c\"\nint main(int c, char **v) { return b(c) + (v != 0); }\n",
+];
+
+/// compile small C programs, let `llvm-dwarfdump --debug-line` decode their line tables and
+/// emit `line-dump` cases carrying the section bytes and the rows the tool printed
+/// (supporting check that the Spec-level meaning is what other consumers read; skipped silently
+/// when the tools are missing)
+fn gen_dwarfdump(ctx: &Ctx, emit: &mut dyn FnMut(String)) {
+    use std::process::Command;
+    let have = |t: &str| Command::new(t).arg("--version").output().map(|o| o.status.success()).unwrap_or(false);
+    if !have("llvm-dwarfdump") || !have("objcopy") {
+        return;
+    }
+    let dir = std::path::PathBuf::from(format!("/var/tmp/gvh-c04-dump-{}", std::process::id()));
+    let _ = std::fs::remove_dir_all(&dir);
+    if std::fs::create_dir_all(&dir).is_err() {
+        return;
+    }
+    let mut variants: Vec<(&str, u32, &str, bool)> = Vec::new();
+    for cc in ["gcc", "clang"] {
+        if !have(cc) {
+            continue;
+        }
+        for dw in [2u32, 3, 4, 5] {
+            for opt in ["-O0", "-O2"] {
+                for gc in [false, true] {
+                    variants.push((cc, dw, opt, gc));
+                }
+            }
+        }
+    }
+    if ctx.tier == Tier::Quick {
+        // a spread: every version, both compilers, both optimisation levels
+        variants = variants.into_iter().enumerate().filter(|(i, _)| i % 5 == 0).map(|(_, v)| v).collect();
+    }
+    for (si, src) in C_SOURCES.iter().enumerate() {
+        let c = dir.join(format!("s{si}.c"));
+        if std::fs::write(&c, src).is_err() {
+            continue;
+        }
+        for (vi, (cc, dw, opt, gc)) in variants.iter().enumerate() {
+            let exe = dir.join(format!("s{si}v{vi}"));
+            let mut cmd = Command::new(cc);
+            cmd.arg("-g").arg(format!("-gdwarf-{dw}")).arg(opt).arg(&c).arg("-o").arg(&exe);
+            if *gc {
+                cmd.arg("-ffunction-sections").arg("-Wl,--gc-sections");
+            }
+            if !cmd.output().map(|o| o.status.success()).unwrap_or(false) {
+                continue;
+            }
+            let secf = dir.join(format!("s{si}v{vi}.line"));
+            let ok = Command::new("objcopy").arg("--dump-section").arg(format!(".debug_line={}", secf.display())).arg(&exe).arg(dir.join("discard")).output().map(|o| o.status.success()).unwrap_or(false);
+            let Ok(sec) = std::fs::read(&secf) else { continue };
+            if !ok || sec.is_empty() || sec.len() > 60_000 {
+                continue;
+            }
+            let Ok(out) = Command::new("llvm-dwarfdump").arg("--debug-line").arg(&exe).output() else { continue };
+            let text = String::from_utf8_lossy(&out.stdout).to_string();
+            // parse: `debug_line[0x<off>]`, then a header line `Address Line Column File ISA Discriminator [OpIndex] Flags`
+            let mut off: Option<u64> = None;
+            let mut cols: Vec<String> = Vec::new();
+            let mut rows: Vec<String> = Vec::new();
+            let mut in_rows = false;
+            let mut flush = |off: &mut Option<u64>, rows: &mut Vec<String>, emit: &mut dyn FnMut(String)| {
+                if let Some(o) = off.take() {
+                    let r = if rows.is_empty() { "~".to_string() } else { rows.join("|") };
+                    emit(format!("line-dump le 8 {o} {} {r}", hex(&sec)));
+                }
+                rows.clear();
+            };
+            for l in text.lines() {
+                if let Some(rest) = l.strip_prefix("debug_line[0x") {
+                    flush(&mut off, &mut rows, emit);
+                    in_rows = false;
+                    off = u64::from_str_radix(rest.trim_end_matches(']'), 16).ok();
+                } else if l.starts_with("Address") {
+                    cols = l.split_whitespace().map(|s| s.to_string()).collect();
+                } else if l.starts_with("------") {
+                    in_rows = true;
+                } else if in_rows {
+                    let t: Vec<&str> = l.split_whitespace().collect();
+                    if t.is_empty() || !t[0].starts_with("0x") {
+                        in_rows = false;
+                        continue;
+                    }
+                    let ncols = cols.len().saturating_sub(1); // without "Flags"
+                    if t.len() < ncols {
+                        continue;
+                    }
+                    let get = |name: &str| -> u64 {
+                        cols.iter().position(|c| c == name).and_then(|i| t.get(i)).and_then(|v| v.parse().ok()).unwrap_or(0)
+                    };
+                    let addr = u64::from_str_radix(&t[0][2..], 16).unwrap_or(0);
+                    let mut flags = 0u64;
+                    for f in &t[ncols..] {
+                        flags |= match *f {
+                            "is_stmt" => 1,
+                            "basic_block" => 2,
+                            "end_sequence" => 4,
+                            "prologue_end" => 8,
+                            "epilogue_begin" => 16,
+                            _ => 0,
+                        };
+                    }
+                    rows.push(format!("{addr},{},{},{},{},{},{flags}", get("Line"), get("Column"), get("File"), get("ISA"), get("Discriminator")));
+                }
+            }
+            flush(&mut off, &mut rows, emit);
+        }
+    }
+    let _ = std::fs::remove_dir_all(&dir);
 }
 
 pub fn gen(ctx: &Ctx, emit: &mut dyn FnMut(String)) {
@@ -1606,6 +1780,7 @@ pub fn gen(ctx: &Ctx, emit: &mut dyn FnMut(String)) {
         }
         emit(format!("line-prog le {} {}", *rng.pick(&[1u8, 2, 4, 8]), hex(&bs)));
     }
+    gen_dwarfdump(ctx, emit);
     if ctx.tier == Tier::Thorough {
         // exhaustive header parameters that matter for special opcodes on one fixed program:
         // every line_range x a spread of line_base/opcode_base
